@@ -260,6 +260,7 @@ theorem mInit_inv : MInv {} := ⟨rfl, by simp, by simp, by simp, rfl⟩
 structure RtSys where
   r : Rt := {}
   live : List Sub := []     -- subscriptions made since the last Reset and not unsubscribed
+  ever : List Sub := []     -- subscriptions ever made and not unsubscribed (Reset does not clear this)
 deriving Repr
 
 inductive RtStep where
@@ -270,10 +271,10 @@ inductive RtStep where
 deriving Repr, DecidableEq
 
 def rtStep (s : RtSys) : RtStep → RtSys
-  | .subscribe t => ⟨(s.r.subscribe t).1, s.live ++ [⟨(s.r.subscribe t).2, t⟩]⟩
-  | .unsubscribe id => ⟨s.r.unsubscribe id, s.live.filter (fun l => l.id != id)⟩
-  | .signal idx => ⟨s.r.signal idx, s.live⟩
-  | .reset => ⟨s.r.reset, []⟩
+  | .subscribe t => ⟨(s.r.subscribe t).1, s.live ++ [⟨(s.r.subscribe t).2, t⟩], s.ever ++ [⟨(s.r.subscribe t).2, t⟩]⟩
+  | .unsubscribe id => ⟨s.r.unsubscribe id, s.live.filter (fun l => l.id != id), s.ever.filter (fun l => l.id != id)⟩
+  | .signal idx => ⟨s.r.signal idx, s.live, s.ever⟩
+  | .reset => ⟨s.r.reset, [], s.ever⟩
 
 def rtRun (s : RtSys) (steps : List RtStep) : RtSys := steps.foldl rtStep s
 
@@ -483,5 +484,21 @@ theorem rtRun_inv (s : RtSys) (steps : List RtStep) (h : RtInv s) : RtInv (rtRun
   induction steps generalizing s with
   | nil => exact h
   | cons st steps ih => exact ih _ (rtStep_inv s st h)
+
+
+/-- without a `Reset`, "ever subscribed" and "live" are the same set -/
+theorem ever_eq_live (steps : List RtStep) (s : RtSys) (h0 : s.ever = s.live)
+    (hnr : ∀ st ∈ steps, st ≠ RtStep.reset) : (rtRun s steps).ever = (rtRun s steps).live := by
+  induction steps generalizing s with
+  | nil => exact h0
+  | cons st steps ih =>
+    simp only [rtRun, List.foldl_cons]
+    apply ih
+    · cases st with
+      | subscribe t => simp [rtStep, h0]
+      | unsubscribe id => simp [rtStep, h0]
+      | signal idx => simp [rtStep, h0]
+      | reset => exact absurd rfl (hnr _ List.mem_cons_self)
+    · intro st' hm; exact hnr st' (List.mem_cons_of_mem _ hm)
 
 end RqModel.Rsync
